@@ -917,6 +917,43 @@ func ruleHTTPBodyReadOnce(c *Ctx, r *Rule) {
 			}
 		}
 	}
+	// ... and nothing cuts it short silently: io.LimitReader ends the stream with a clean EOF at the limit,
+	// so the rest of the body is dropped and the request still succeeds (http.MaxBytesReader fails instead)
+	for _, fn := range c.ModFuncs {
+		if c.pkgOf(fn) != "plugin/input/http" {
+			continue
+		}
+		for _, ci := range callsIn(fn) {
+			if f := calleeFunc(ci); f != nil && qualName(f) == "io.LimitReader" {
+				r.Ob(false, c.fnName(fn)+"|LimitReader", ci.Pos(), "io.LimitReader reports a clean end of stream at its limit: the lines beyond it are never handed over and the client is told 200")
+			}
+		}
+	}
+	// ... and no response status is committed before the body has been processed: a WriteHeader ahead of
+	// the body processing makes the later error status a no-op (net/http ignores the second WriteHeader)
+	hr := c.httpRoles()
+	if hr.bulk != nil {
+		for _, cs := range c.sitesOf(hr.bulk) {
+			handler := cs.Parent()
+			var chain []ssa.CallInstruction
+			chain = append(chain, cs)
+			for _, cs2 := range c.sitesOf(handler) {
+				chain = append(chain, cs2)
+			}
+			for _, site := range chain {
+				fn := site.Parent()
+				for _, ci := range callsIn(fn) {
+					cc := ci.Common()
+					if !(cc.IsInvoke() && cc.Method.Name() == "WriteHeader" && typeIs(cc.Value.Type(), "net/http", "ResponseWriter")) {
+						continue
+					}
+					if before, _ := c.pathExists(fn, ci, func(in ssa.Instruction) bool { return in == ssa.Instruction(site) }, nil); before {
+						r.Ob(false, c.fnName(fn)+"|status-before-body", ci.Pos(), "a response status is written before the body has been processed: a failure found while reading the body can no longer be reported (the client sees the early status)")
+					}
+				}
+			}
+		}
+	}
 	r.Inst(1)
 	r.Ob(n >= 5, "plugin/input/http|scope", token.NoPos, fmt.Sprintf("%d functions of the http input scanned for body-consuming request helpers", n))
 }
